@@ -21,7 +21,7 @@ V1(c) == /\ SameBag(c.all, Concat(c.alone))
          /\ \A k \in 1..Len(c.subsets) : SameBag(c.subsets[k].errors, Concat([j \in 1..Len(c.subsets[k].rules) |-> c.alone[c.subsets[k].rules[j]]]))
 \* V2: the reported messages do not depend on layout, reprinting or descriptions
 V2(c) == \A k \in 1..Len(c.variants) : SameBag(c.variants[k], c.msgs)
-\* V3: determinism and purity
+\* V3: determinism, purity and history independence (again = the same call repeated, also after runs cut short by every error limit)
 V3(c) == c.again = c.all /\ c.unchanged
 \* V4: with a limit n: the first min(n, total) errors, followed by exactly one abort notice iff total > n
 V4(c) == \A k \in 1..Len(c.limited) :
